@@ -100,7 +100,7 @@ def info(tier):
         "point x min/max x tol x 5 methods; linprog statuses 0-4); every OPTIMAL solution's constraints and bounds are "
         "re-evaluated by the reference interpreter; distinct = canonical (problem, method, options | stub script) hashes"
         % len(message_catalogue()),
-        "required_cells": ["A:feasible", "A:infeasible", "A:boundary", "A:lp-feasible", "A:lp-infeasible", "A:deep-constraint", "A:edit-then-resolve", "A:mixed-degree-vector", "A:view-order-constraint"]
+        "required_cells": ["A:feasible", "A:infeasible", "A:boundary", "A:lp-feasible", "A:lp-infeasible", "A:deep-constraint", "A:edit-then-resolve", "A:mixed-degree-vector", "A:view-order-constraint", "A:parametric-linear-after-set"]
         + [f"A:method:{m}" for m in sorted(set(NLP_METHODS + LP_METHODS))]
         + [f"B:point:{p}" for p in ("feasible", "violates-le", "violates-ge", "violates-eq", "violates-lb", "violates-ub")]
         + ["B:success:True", "B:success:False", "B:linprog"],
@@ -261,6 +261,53 @@ def run_edit_then_resolve(rec, rng, prob, later, cell, method):
     judge(rec, full, sol, cell, f"A:{method}:after-adding-constraints", extra={"method": method, "history": "solve; subject_to([...]); solve"})
 
 
+def run_parametric_resolve(rec, rng, method):
+    """A model linear in its variables with Parameters as coefficients and right-hand sides: solve, Parameter.set(), solve the same
+    problem again; every OPTIMAL is judged against the constraints at the parameter values current at that solve."""
+    import copy
+
+    n = rng.choice([2, 3])
+    x = ["vec", "x"]
+    decls = [{"k": "vec", "name": "x", "n": n, "lb": 0.0, "ub": 10.0}, {"k": "par", "name": "p", "val": 1.0}, {"k": "par", "name": "q", "val": 2.0}]
+    w = [1.0 + 0.5 * i for i in range(n)]
+    lin = rng.random() < 0.7
+    obj = ["matmul", ["arr", w], x] if lin else ["bin", "+", ["matmul", ["arr", w], x], ["bin", "*", ["raw", 0.05, "float"], ["dot", x, x]]]
+    cons = [["rel", ">=", ["bin", "+", ["bin", "*", ["par", "p"], ["el", x, 0]], ["el", x, 1]], ["par", "q"], "direct"],
+            ["rel", "<=", ["sum", x], ["raw", 9.0, "float"], "direct"]]
+    if rng.random() < 0.5:
+        cons.append(["rel", "<=", ["bin", "-", ["el", x, 0], ["bin", "*", ["par", "q"], ["el", x, n - 1]]], ["raw", 1.0, "float"], "direct"])
+    prob = {"decls": decls, "objective": obj, "sense": "min", "constraints": cons}
+    rec.case({"parametric": prob, "m": method})
+    updates = [{"p": 0.5, "q": 6.0}, {"p": 2.0, "q": 15.0}, {"p": 0.25, "q": 40.0}, {"p": 1.0, "q": 1.0}]
+    rng.shuffle(updates)
+    try:
+        b = B.Builder(decls)
+        P = b.problem(prob)
+    except Exception as ex:
+        rec.events["unsupported-build:" + type(ex).__name__] += 1
+        return
+    cur = {"p": 1.0, "q": 2.0}
+    for step, upd in enumerate([None] + updates[:3]):
+        if upd is not None:
+            for k_, v_ in upd.items():
+                b.params[k_].set(v_)
+            cur = dict(upd)
+        now = copy.deepcopy(prob)
+        for d in now["decls"]:
+            if d["k"] == "par":
+                d["val"] = cur[d["name"]]
+        try:
+            with warnings.catch_warnings():
+                warnings.simplefilter("ignore")
+                sol = P.solve(method=method, **({"maxiter": 300} if method == "trust-constr" else {}))
+        except Exception as ex:
+            rec.events[f"parametric-solve-raises:{type(ex).__name__}"] += 1
+            return
+        rec.cmp(1, f"A:method:{method}")
+        judge(rec, now, sol, "A:parametric-linear-after-set", f"A:{method}:parametric-solve-{'first' if step == 0 else 'after-set'}",
+              extra={"method": method, "history": f"solve #{step + 1}, parameters {cur}"})
+
+
 def option_sets(rng, method, lp):
     if lp and method in ("linprog", "highs", "highs-ds", "highs-ipm", "auto"):
         return [{}]
@@ -284,6 +331,10 @@ def workload_a(ctx, rec):
         k += 1
         which = k % 9
         lp = False
+        if which == 8 and n % 2:
+            for m in ("auto", "SLSQP", "trust-constr", "highs-ds"):
+                run_parametric_resolve(rec, rng, m)
+            continue
         if which == 8:
             prob = view_order_problem(rng)
             for m in ("auto", "SLSQP", "trust-constr", "COBYLA"):
